@@ -9,7 +9,7 @@ def byteSum (s en : Nat) : Nat := ((List.range (en - s)).map fun i => (7 * (s + 
 def showQuad (q : Quad) : String := s!"{q.1} {q.2.1} {q.2.2.1} {q.2.2.2}"
 
 /-- `part bp b l e` | `part bl aL aS nL l e sbn` | `part sb b l e` (sender slicing) |
-    `part rb b l e sbn` (receiver block symbols) -/
+    `part rcv scheme inband b l e` (clean session: receiver block sizing) | `part sbl b l e` | `part fti …` | `part rq|rp|snd b l e` -/
 def step (args : List String) : String :=
   match args with
   | ["bp", b, l, e] =>
@@ -24,20 +24,43 @@ def step (args : List String) : String :=
     match nats? [l, e, z] with
     | some [l, e, z] =>
       -- e = 0 / z = 0 are rejected by the parsers before the reconstruction
-      if e = 0 ∨ z = 0 then "ERR" else s!"ok {reconstructB l e z % 2^32}"
+      if e = 0 ∨ z = 0 then "ERR" else s!"ok {reconstructB32 l e z}"
     | _ => "bad-op"
-  | ["rcv", _scheme, _inband, b, l, e] =>
-    -- receiver side: one write per block, of the RFC byte length; completed once, no error
+  | ["rcv", scheme, _inband, b, l, e] =>
+    -- receiver side of a clean session: the object completes exactly when, for every block, the receiver's source
+    -- block length (`receiverBlockSymbols`, or the wire-borne one for RS under-specified = the sender's count) equals the
+    -- number of source symbols the sender cut for it; then one write per block, of `blockLength` bytes
+    match nats? [scheme, b, l, e] with
+    | some [scheme, b, l, e] =>
+      -- RaptorQ / Raptor: the receiver partitions with the B it reconstructs from Z
+      match blockPartitioning b l e with
+      | .error _ => "PANIC"
+      | .ok qs =>
+        let bRx := if scheme = 3 ∨ scheme = 4 then reconstructB32 l e qs.2.2.2 else b
+        match blockPartitioning bRx l e with
+        | .error _ => "PANIC"
+        | .ok (aL, aS, nL, n) =>
+          let snd := senderBlocks qs l e (l + 1) 0 0
+          let agree := snd.length = n ∧ (List.range n).all fun sbn =>
+            let kTx := (snd.getD sbn (0, 0, 0)).1
+            let kRx := if scheme = 2 then kTx else receiverBlockSymbols (aL, aS, nL, n) sbn
+            kTx = kRx
+          if ¬ agree then "ok c0 e1" else
+          let lens := (List.range n).map fun sbn =>
+            match blockLength aL aS nL l e sbn with
+            | .ok v => toString v
+            | .error _ => "PANIC"
+          "ok c1 e0" ++ String.join (lens.map fun x => " " ++ x)
+    | _ => "bad-op"
+  | ["sbl", b, l, e] =>
+    -- RS under-specified: the source block length the sender writes into every payload id of block sbn
     match nats? [b, l, e] with
     | some [b, l, e] =>
       match blockPartitioning b l e with
       | .error _ => "PANIC"
-      | .ok (aL, aS, nL, n) =>
-        let lens := (List.range n).map fun sbn =>
-          match blockLength aL aS nL l e sbn with
-          | .ok v => toString v
-          | .error _ => "PANIC"
-        "ok c1 e0" ++ String.join (lens.map fun x => " " ++ x)
+      | .ok q =>
+        let bl := senderBlocks q l e (l + 1) 0 0
+        "ok" ++ String.join (bl.map fun (_, s, en) => s!" {divCeil (en - s) e}")
     | _ => "bad-op"
   | [rqp, b, l, e] =>
     if rqp = "rq" ∨ rqp = "rp" then
